@@ -229,6 +229,9 @@ CFG = {
         "go_projString_eq_js_dedup", "go_projString_eq_js", "repeated_key_differs",
         # getDatum = datum.js (DatumSame); the two table lookups of DeriveConstants = deriveConstants.js
         "go_getDatum_eq_js", "ell_nz", "dec_toNum_ne_zero", "go_deriveTables_eq_js",
+        # ... composed: DeriveConstants as a whole, and Parse(def) = new Proj(def) up to init for one definition string
+        "goFold_keeps", "js_fold_keeps", "deriveTables_keepsG", "deriveTables_keepsJ", "go_deriveTail_eq_js",
+        "go_deriveConstants_eq_js", "fresh_of_projString", "go_parse_eq_js",
     ]],
     "trusted_base": [
         "Lean 4.33.0 kernel; axioms of every theorem printed by #print axioms must be within {propext, Classical.choice, Quot.sound}",
